@@ -85,6 +85,7 @@ def file_effects(ctx, rule='C06.O7'):
     if f:
         res.append(f)
     allowed = {cm, op, F.fn('DB::open')}
+    cg = F.callgraph()
     nentries = 0
     for e in F.fns:
         if e.kind == 'Closure':
@@ -93,7 +94,17 @@ def file_effects(ctx, rule='C06.O7'):
         if not is_entry:
             continue
         nentries += 1
-        reach = F.reachable_fns([e])
+        if e in allowed:
+            reach = F.reachable_fns([e])
+        else:
+            # a public function that gets to the file only by calling the public commit / open is a composition of the API, not a new way to the file
+            reach, todo = {e}, [e]
+            while todo:
+                x = todo.pop()
+                for y in cg.get(x, ()):
+                    if y not in reach and y is not cm and y is not op:
+                        reach.add(y)
+                        todo.append(y)
         hit = [g for g in reach if g in direct]
         if hit and e not in allowed:
             g = hit[0]
@@ -113,6 +124,61 @@ def file_effects(ctx, rule='C06.O7'):
     if not any(not r.ok for r in res):
         res.append(ok(rule, 'file writes / growth / remap (%d functions) are reachable only from Tx::commit and OpenOptions::open among %d public entries and Drop impls' % (len(direct), nentries), sites=nentries))
     return res
+
+
+def commit_on_success_only(ctx, rule='C06.commit-on-success'):
+    """wherever the crate itself commits a transaction on the caller's behalf (a convenience wrapper around begin / work / commit), the commit is behind the success
+    of every fallible step that precedes it in that function: a Result produced earlier and not yet examined when commit is called means failed work is committed"""
+    res = []
+    F = ctx.facts
+    try:
+        (cm,) = ctx.need('Tx::commit')
+    except AnchorError as e:
+        return [unresolved(rule, str(e))]
+    n = 0
+    for g in sorted(F.fns, key=lambda f: f.path):
+        if g is cm:
+            continue
+        sites = calls_to_fn_(F, g, cm)
+        if not sites:
+            continue
+        du = ctx.du(g)
+        for cb, ct, cc in sites:
+            n += 1
+            pending = []
+            for pb in sorted(g.reachable_blocks()):
+                pt = g.term(pb)
+                if pt['k'] != 'call' or pb == cb or not g.dominates(pb, cb):
+                    continue
+                dl = pt['dest']['l']
+                if pt['dest']['pr'] or not g.locals[dl]['ty'].startswith('std::result::Result<'):
+                    continue
+                tested = False
+                for sb in g.reachable_blocks():
+                    st = g.term(sb)
+                    if st['k'] != 'switch' or not (g.dominates(pb, sb) and g.dominates(sb, cb)):
+                        continue
+                    locs, _ = du.slice_operand(st['discr'])
+                    if dl in locs:
+                        tested = True
+                        break
+                if not tested:
+                    pc = callee_of(pt)
+                    pending.append((g.loc(pb), strip_generics(pc['path']) if pc else '?'))
+            if pending:
+                res.append(bad(rule, '%s | commits with an unexamined result pending' % g.qual,
+                               '%s calls Tx::commit at %s while the Result of %s (%s) has not been examined: if that step failed, its partial work is committed all the same'
+                               % (g.qual, g.loc(cb), pending[0][1], pending[0][0]), where=g.loc(cb)))
+            else:
+                res.append(ok(rule, '%s commits at %s only behind the success of the fallible steps before it' % (g.qual, g.loc(cb)), sites=1))
+    if n == 0:
+        res.append(ok(rule, 'no function of the crate commits a transaction on the caller\'s behalf', sites=0))
+    return res
+
+
+def calls_to_fn_(F, g, target):
+    from util import calls_to_fn
+    return calls_to_fn(F, g, target)
 
 
 def open_existing(ctx, rule='C06.open-existing'):
@@ -601,6 +667,7 @@ def run(ctx, tier):
     results += open_existing(ctx)
     results += shared_freelist(ctx)
     results += ob['O4']
+    results += commit_on_success_only(ctx)
     results += guard(ctx)
     results += writable_provenance(ctx)
     results += error_atomic(ctx)
